@@ -121,8 +121,10 @@ def _portable(x):
         pass
     if isinstance(x, dict):
         return {k: _portable(v) for k, v in x.items()}
-    if isinstance(x, (list, tuple)):
-        return type(x)(_portable(v) for v in x)
+    if isinstance(x, list):
+        return [_portable(v) for v in x]
+    if isinstance(x, tuple):
+        return tuple(_portable(v) for v in x)
     if isinstance(x, memoryview):
         return ("memoryview", x.format, x.tobytes())
     return repr(x)[:200]
